@@ -18,6 +18,7 @@ type semCase struct {
 	Env      Env   `json:"env"`
 	Opt      bool  `json:"opt"`
 	Verdicts []int `json:"verdicts"` // per document index: 0 reject, 1 accept, 2 unspecified
+	MayRefuse bool `json:"mayrefuse"` // Check may reject the schema (a count beyond any machine integer); if it accepts, the verdicts apply
 }
 
 type semMismatch struct {
@@ -93,6 +94,9 @@ func init() {
 			s, rr, err := buildSchema(c.Schema, c.Env, c.Opt, *mesh)
 			if err == nil {
 				err = s.Check()
+			}
+			if err != nil && c.MayRefuse {
+				return
 			}
 			if err != nil {
 				// the schema itself is rejected: every specified verdict is a disagreement of the same cause
